@@ -23,15 +23,17 @@ def gen_metrics(rnd, n_einsums=None, force=None):
         return gen_merger(rnd)
     if n_einsums in (None, 2) and force is None and rnd.random() < 0.08:
         return gen_lf_shared(rnd)
+    if n_einsums in (None, 1) and force is None and rnd.random() < 0.06:
+        return gen_lf_affine(rnd)
     pool = ["M", "N", "K", "J"]
     nr = rnd.randint(2, 3)
     perm = rnd.sample(pool, nr)           # global rank precedence (concordant everywhere)
-    n = n_einsums or rnd.choice([1, 1, 2, 2, 3])
+    n = n_einsums or rnd.choice([1, 1, 2, 2, 3, 3, 4])
     decl = {}
     exprs = []
     reused = False
     fresh = iter("ABCDEFGHIJKLMNOPQRSVWXY")
-    outs = ["T", "U", "Z"]
+    outs = ["T", "U", "V", "Z"]
     prev = None
     einfo = []
     for i in range(n):
@@ -81,6 +83,12 @@ def gen_metrics(rnd, n_einsums=None, force=None):
         lo = list(ranks)
         k = rnd.randint(0, len(lo))
         space = lo[k:] if rnd.random() < 0.6 else []
+        if einfo and rnd.random() < 0.5:
+            # same temporal prefix as the previous Einsum when the ranks allow it
+            pe = einfo[-1]
+            ppre = pe["loop_order"][:len(pe["loop_order"]) - len(pe["space"])]
+            if lo[:len(ppre)] == ppre:
+                space = lo[len(ppre):]
         einfo.append({"out": out, "loop_order": lo, "space": space,
                       "time": [r for r in lo if r not in space], "inputs": list(facs)})
         prev = out
@@ -120,7 +128,7 @@ def gen_metrics(rnd, n_einsums=None, force=None):
                        ind + "    attributes:", ind + "      width: 64",
                        ind + "      depth: %s" % rnd.choice(["128", "inf"])]
         comps["Buf"] = {"class": bufcls, "inst": npe, "depth": depth}
-        nmul = rnd.choice([1, 1, 2])
+        nmul = rnd.choice([1, 2, 2, 3, 4])
         for j in range(nmul):
             arch_lines += [ind + "  - name: Mul%d%s" % (j, sfx), ind + "    class: compute",
                            ind + "    attributes:", ind + "      type: mul"]
@@ -215,10 +223,13 @@ def gen_metrics(rnd, n_einsums=None, force=None):
                 b_lines += ["  - component: Buf%s" % sfx, "    bindings:"] + tb("cache")
             ei["bound"]["Buf"] = True
         muls = sorted(c for c in comps if c.startswith("Mul"))
-        m = rnd.choice(muls)
-        b_lines += ["  - component: %s%s" % (m, sfx), "    bindings:", "    - op: mul"]
-        ei["bound"][m] = True
-        if rnd.random() < 0.8:
+        # prefer a multiplier no earlier Einsum uses, so that blocks of 3-4 Einsums can form
+        free = [m for m in muls if not any(m in e0.get("bound", {}) for e0 in einfo[:i])]
+        if rnd.random() < 0.85:
+            m = rnd.choice(free) if free and rnd.random() < 0.7 else rnd.choice(muls)
+            b_lines += ["  - component: %s%s" % (m, sfx), "    bindings:", "    - op: mul"]
+            ei["bound"][m] = True
+        if rnd.random() < (0.3 if i > 0 else 0.8):
             b_lines += ["  - component: Add0%s" % sfx, "    bindings:", "    - op: add"]
             ei["bound"]["Add0"] = True
         isects = sorted(c for c in comps if c.startswith("Isect"))
@@ -262,13 +273,23 @@ def gen_metrics(rnd, n_einsums=None, force=None):
             ei["bound"]["Seq0"] = True
     ro = {t: list(rs) for t, rs in decl.items()}
     lo = {ei["out"]: ei["loop_order"] for ei in einfo}
-    st = {ei["out"]: {"space": ei["space"], "time": ei["time"]} for ei in einfo}
+    st = {}
+    for ei in einfo:
+        tm = list(ei["time"])
+        if len(tm) > 1 and rnd.random() < 0.35:
+            rnd.shuffle(tm)
+            ei["time_shuffled"] = tm != ei["time"]
+        st[ei["out"]] = {"space": ei["space"], "time": tm}
     extra = "\n".join(arch_lines + b_lines + fmt_lines) + "\n"
     tags = ["metrics", "m-einsums%d" % n, "m-configs%d" % nconf]
     if any("lf_leader_not_first" in ei for ei in einfo):
         tags.append("lf-leader-not-first")
     if reused:
         tags.append("m-input-read-by-two-einsums")
+    if any(ei.get("time_shuffled") for ei in einfo):
+        tags.append("m-time-list-not-in-loop-order")
+    if any(not any(k for k in ei["bound"]) for ei in einfo):
+        tags.append("m-einsum-with-no-timed-component")
     if any("same_rank_intersector" in ei for ei in einfo):
         tags.append("m-same-rank-intersector-across-einsums")
     if any("multi_rank_isect" in ei for ei in einfo):
@@ -306,9 +327,11 @@ def gen_merger(rnd):
     decl = {"A": [X, K, Y]}
     out_ranks = [X] if rnd.random() < 0.6 else [X, Y]
     facs = [_acc("A", decl["A"])]
-    if rnd.random() < 0.5:
+    if rnd.random() < 0.6:
         br = rnd.sample([X, K, Y], rnd.randint(1, 2))
         br = [r for r in [X, K, Y] if r in br]
+        if rnd.random() < 0.3:
+            br = [X, K, Y]
         decl["B"] = br
         facs.append(_acc("B", br))
         rnd.shuffle(facs)
@@ -333,8 +356,13 @@ def gen_merger(rnd):
             "          type: mul"]
     b = ["bindings:", "  Z:", "  - config: accel", "    prefix: tmp/Z", "  - component: Merge0",
          "    bindings:", "    - tensor: A", "      init-ranks: [%s]" % ", ".join(init),
-         "      final-ranks: [%s]" % ", ".join(final), "  - component: Mul0", "    bindings:",
-         "    - op: mul"]
+         "      final-ranks: [%s]" % ", ".join(final)]
+    two = "B" in decl and decl["B"] == decl["A"] and rnd.random() < 0.5
+    if two:
+        # a second tensor on the same merger (the compiler refuses this today)
+        b += ["    - tensor: B", "      init-ranks: [%s]" % ", ".join(init),
+              "      final-ranks: [%s]" % ", ".join(final)]
+    b += ["  - component: Mul0", "    bindings:", "    - op: mul"]
     fmt = ["format:"]
     for t, rs in decl.items():
         fmt += ["  %s:" % t, "    default:", "      rank-order: [%s]" % ", ".join(rs)]
@@ -396,3 +424,42 @@ def gen_lf_shared(rnd):
                 spacetime=st, extra="\n".join(arch + b + fmt) + "\n",
                 tags=["metrics", "m-leader-follower", "m-lf-same-rank-different-leaders",
                       "m-einsums2", "m-configs1"])
+
+
+def gen_lf_affine(rnd):
+    """Metrics mode on an affine Einsum: an intersector (any type; leader-
+    follower with the first factor as leader) bound to the output's index rank
+    where another operand is reached through index math:
+        O[q] = G[q] * I[a*q + s] * F[s]"""
+    a = rnd.choice([1, 1, 2])
+    Q, S = rnd.randint(3, 6), rnd.randint(1, 3)
+    ext = {"Q": Q, "S": S, "W": a * (Q - 1) + S}
+    decl = {"G": ["Q"], "I": ["W"], "F": ["S"], "O": ["Q"]}
+    g = Acc("G", [[(1, "q")]])
+    i = Acc("I", [[(a, "q"), (1, "s")]])
+    f = Acc("F", [[(1, "s")]])
+    facs = [g, i, f]
+    if rnd.random() < 0.3:
+        facs = [g, f, i]
+    e = Einsum(Acc("O", [[(1, "q")]]), [Term("times", facs)])
+    lo = rnd.choice([["S", "Q"], ["Q", "S"]])
+    kind = rnd.choice(["leader-follower", "leader-follower", "two-finger", "skip-ahead"])
+    arch = ["architecture:", "  accel:", "  - name: System", "    attributes:",
+            "      clock_frequency: 1000", "    local:", "    - name: Isect",
+            "      class: Intersector", "      attributes:", "        type: %s" % kind,
+            "    - name: Mul0", "      class: compute", "      attributes:", "        type: mul"]
+    b = ["bindings:", "  O:", "  - config: accel", "    prefix: tmp/O", "  - component: Isect",
+         "    bindings:", "    - rank: Q"]
+    if kind == "leader-follower":
+        b.append("      leader: G")
+    b += ["  - component: Mul0", "    bindings:", "    - op: mul"]
+    fmt = ["format:"]
+    for t, rs in decl.items():
+        fmt += ["  %s:" % t, "    default:", "      rank-order: [%s]" % ", ".join(rs)]
+        for x in rs:
+            fmt += ["      %s:" % x, "        format: C", "        cbits: 32", "        pbits: 64"]
+    spec = Spec(decl, [e], loop_order={"O": lo}, spacetime={"O": {"space": [], "time": list(lo)}},
+                extra="\n".join(arch + b + fmt) + "\n",
+                tags=["metrics", "m-affine", "m-" + kind, "m-einsums1", "m-configs1", "S1"])
+    spec._extents = ext
+    return spec
